@@ -73,6 +73,10 @@ CLAIMED = {
         text="MC_DualAvg.tla checks the phase machine over several run() calls (adapt exactly while m <= n_discard, then the step size equals the averaged iterate and never changes within the run, the counter persists); Trace_DualAvg validates every transition of real chains (warm-up 0..300/2000, requested acceptance 0.55..0.95, repeated run() calls, several targets, f32/f64): phase decided by the specification, counter, shrinkage point ln(10 eps), power-of-two start value, positivity/finiteness, coarse interval versions of the three dual-averaging recurrences from certified tables (gamma 0.05, t0 10, kappa 0.75) and fine residuals of the same recurrences; the start-up heuristic is called through its wrapper and must stop where Algorithm 4 stops.",
         note="Trusted: TLC, certified tables (bin/gen_tables.py, exact integer arithmetic), the harness's f64 re-evaluation for the fine residuals. The statistical clause (realised acceptance close to requested) is reported and asserted only as a wide envelope.",
         ref="DESIGN.md 4.7, 5/C04", technique="TLC model check of the adaptation phase machine + trace validation of real adaptation histories against DualAvg.tla with certified interval tables"),
+    "C14": dict(
+        text="The accept rules are analysed exhaustively over IEEE kinds: MH.tla!NeverToBadState for all 8^4 log-value tables and all draw classes (incl. u = 0), AcceptKinds.tla for the HMC Metropolis test (accepted => proposal density positive and not NaN, momentum finite, unless ln u = -inf) and the NUTS slice / divergence tests (in slice => joint finite or +inf; NaN stops the tree); recorded runs of MH (library and inf/NaN-producing proposals) on half-line, box and sqrt targets, HMC with step sizes up to 1e300 on the half-line and NUTS on NaN-region / divergent targets incl. overflowing step sizes are validated transition by transition (state stays good and finite, refused candidates leave the state bit for bit), panics and hangs are violations.",
+        note="Trusted: TLC; the harness's own copies of the targets; watchdog 600 s. Zero acceptance draws excepted as stated by the property.",
+        ref="DESIGN.md 5/C14", technique="TLC exhaustive case analysis over IEEE kinds (MH.tla, AcceptKinds.tla) + trace validation of runs on bounded-support targets (Trace_BadState, Trace_HMC)"),
 }
 
 PENDING_REASON = "check not built yet in this round (planned: see DESIGN.md section 5); not claimed until its TLC + conformance check exists"
